@@ -90,6 +90,57 @@ def value (ev : Position → Int) (hist : List String) : Nat → Position → Na
 
 def evalOf (p : Position) : Int := Jence.evaluate (toGame p)
 
+/-! The same two functions computed with plain fail-soft alpha-beta cut-offs (no move ordering, no null
+    window) and a node budget, so that the oracle terminates on tactical positions. With a full window the
+    result is the minimax value; `none` = budget exhausted. -/
+
+def kindValue : Kind → Nat
+  | .pawn => 1 | .knight => 3 | .bishop => 3 | .rook => 5 | .queen => 9 | .king => 20
+
+/-- most valuable victim first, least valuable attacker first (ordering does not change the value) -/
+def orderKey (p : Position) (m : SMove) : Nat :=
+  let v := match at_ p m.dst with | some pc => kindValue pc.kind | none => if isEnPassant p m then 1 else 0
+  let a := match at_ p m.src with | some pc => kindValue pc.kind | none => 0
+  let pr := match m.promo with | some k => kindValue k | none => 0
+  (v + pr) * 32 + (31 - a)
+
+def ordered (p : Position) (ms : List SMove) : List SMove :=
+  ((ms.map fun m => (orderKey p m, m)).toArray.qsort (fun a b => a.1 > b.1)).toList.map (·.2)
+
+def qLoopAB (rec : Position → Int → Int → Nat → Option Int × Nat) (p : Position) (beta : Int) :
+    List SMove → Int → Int → Nat → Option Int × Nat
+  | [], best, _, n => (some best, n)
+  | m :: ms, best, alpha, n =>
+    match rec (apply p m) (-beta) (-alpha) n with
+    | (none, n) => (none, n)
+    | (some v, n) =>
+      let s := -v
+      let best := max best s
+      if best >= beta then (some best, n) else qLoopAB rec p beta ms best (max alpha best) n
+
+def qValueAB (ev : Position → Int) (budget : Nat) : Nat → Position → Nat → Int → Int → Nat → Option Int × Nat
+  | 0, p, _, _, _, n => (some (ev p), n)
+  | fuel + 1, p, ply, alpha, beta, n =>
+    if n > budget then (none, n) else
+    let e := ev p
+    if ply > 63 || p.half == 100 then (some e, n + 1) else
+    if e >= beta then (some e, n + 1) else
+    qLoopAB (fun q a b n => qValueAB ev budget fuel q (ply + 1) a b n) p beta (ordered p (captures p)) e (max alpha e) (n + 1)
+
+def valueAB (ev : Position → Int) (hist : List String) (budget : Nat) :
+    Nat → Position → Nat → Nat → Int → Int → Nat → Option Int × Nat
+  | 0, p, _, _, _, _, n => (some (ev p), n)
+  | fuel + 1, p, depth, ply, alpha, beta, n =>
+    if n > budget then (none, n) else
+    if ply > 0 && hist.contains (ident p) then (some 0, n + 1) else
+    if ply >= 63 then (some (ev p), n + 1) else
+    if depth == 0 || p.half == 100 then qValueAB ev budget 70 p ply alpha beta n else
+    let chk := inCheck p p.white
+    let nDepth := if chk then depth + 1 else depth
+    let ms := legalMoves p
+    if ms.isEmpty then (some (if chk then -Gen.MATE_VALUE + ply else 0), n + 1) else
+    qLoopAB (fun q a b n => valueAB ev hist budget fuel q (nDepth - 1) (ply + 1) a b n) p beta (ordered p ms) (-1000000) alpha (n + 1)
+
 -- forced mates (C11) -----------------------------------------------------------------------------
 
 mutual
@@ -188,6 +239,14 @@ def oracle (rest : String) : List String :=
     match ofFen (parts.headD ""), (parts.getD 1 "").toNat? with
     | some p, some d => [toString (perft p d)]
     | _, _ => ["!none"]
+  | "succ" =>
+    -- all legal successors: "<uci> <fen>" per line, then what a pass would give ("null <ident>") when not in check
+    match ofFen arg with
+    | none => ["!none"]
+    | some p =>
+      ((legalMoves p).map fun m => m.uci ++ " " ++ toFen (apply p m)) ++
+      (if inCheck p p.white then [] else ["null " ++ ident { p with white := !p.white, ep := none }]) ++
+      [s!"terminal {if isMate p then "mate" else if isStalemate p then "stalemate" else "no"}"]
   | "attack" =>
     -- attack R|B|Q sq occhex : the coordinate walk
     match words' arg with
@@ -204,7 +263,11 @@ def oracle (rest : String) : List String :=
   | "minimax" =>
     let parts := semis' arg
     match ofFen (parts.headD ""), (parts.getD 1 "").toNat? with
-    | some p, some d => [toString (value evalOf [ident p] 80 p d 0)]
+    | some p, some d =>
+      let budget := ((parts.getD 2 "").toNat?).getD 300000
+      match valueAB evalOf [ident p] budget 80 p d 0 (-1000000) 1000000 0 with
+      | (some v, n) => [toString v, s!"nodes {n}"]
+      | (none, n) => ["!budget", s!"nodes {n}"]
     | _, _ => ["!none"]
   | "mate" =>
     let parts := semis' arg
